@@ -36,7 +36,9 @@ def $function_name(*args, **kwargs):
     """
     case,arg = 0,0
     for na,a in enumerate(args):
-        if hasattr(a.__class__, '$function_name'):
+        # (plain numpy arrays and scalars go to the numpy function, not to the
+        # ndarray method of the same name, whose signature differs)
+        if not isinstance(a, (numpy.ndarray, numpy.generic)) and hasattr(a.__class__, '$function_name'):
             case = 1
             arg  = na
             break
